@@ -282,11 +282,19 @@ class HttpProxyPlugin(HttpProtocolHandlerPlugin):
             # tls interception is enabled
             if raw is not None:
                 if not self.request.is_https_tunnel or self._tls_intercept_enabled:
-                    if self.response.is_complete:
-                        self.handle_pipeline_response(raw)
-                    else:
-                        self.response.parse(raw)
-                        self.emit_response_events(len(raw))
+                    # Response is parsed only for access logs and events.
+                    # Relaying upstream data to the client must not depend
+                    # upon it e.g. body of a response delimited by connection
+                    # close is not a parseable (pipelined) response.
+                    try:
+                        if self.response.is_complete:
+                            self.handle_pipeline_response(raw)
+                        else:
+                            self.response.parse(raw)
+                            self.emit_response_events(len(raw))
+                    except Exception as e:
+                        self.pipeline_response = None
+                        logger.debug('Unable to parse upstream response: %r', e)
                 else:
                     self.response.total_size += len(raw)
                 # queue raw data for client
